@@ -348,6 +348,20 @@ func c05Replay(c *Ctx, raw []byte, kind string) bool {
 			c.Emit(s, obs, mons, "corpus")
 		}
 		return true
+	case "cdel":
+		var s c05CDelScn
+		if jsonUnmarshalStrict(raw, &s) == nil {
+			obs, mons := c05RunCDel(s)
+			c.Emit(s, obs, mons, "corpus")
+		}
+		return true
+	case "del":
+		var s c05DelScn
+		if jsonUnmarshalStrict(raw, &s) == nil {
+			obs, mons := c05RunDel(s)
+			c.Emit(s, obs, mons, "corpus")
+		}
+		return true
 	case "fn":
 		var s c05FnScn
 		if jsonUnmarshalStrict(raw, &s) == nil {
@@ -411,6 +425,18 @@ func init() {
 				s := c05GenClaimSeq(c.Rng)
 				obs, mons := c05RunClaimSeq(s)
 				c.Emit(s, obs, mons, c05ClaimSeqCls(s))
+				continue
+			}
+			if i%32 == 0 {
+				s := c05GenCDel(c.Rng)
+				obs, mons := c05RunCDel(s)
+				c.Emit(s, obs, mons, c05CDelCls(s))
+				continue
+			}
+			if i%32 == 16 {
+				s := c05GenDel(c.Rng)
+				obs, mons := c05RunDel(s)
+				c.Emit(s, obs, mons, c05DelCls(s))
 				continue
 			}
 			if i%16 == 12 {
